@@ -771,7 +771,45 @@ UNHANDLED_NOTIFICATIONS = [
     ("glas/noSuchNotification", None),
 ]
 
-PROOF_MODULES = {"C15": ["Glas.Props.C15"]}
+def run_vfs_ids(res, tier, seed):
+    """M-vfs-ids vs the real `Vfs` (hooks glas::verif_api::remove_path / file_id_for_path): histories of set_path_content / remove_uri
+    over a handful of paths - the id every operation returns and the final table path -> (id, content); the oracle: the
+    content held for a path is the last one written since its last removal, two loaded paths never share an id"""
+    rng = random.Random(seed * 43 + 15)
+    reqs, scripts = [], []
+    for _ in range(2000 if tier == "quick" else 40000):
+        npaths = rng.randrange(1, 9)
+        ops = []
+        for _ in range(rng.randrange(1, 40)):
+            ops.append(("s" if rng.random() < 0.6 else "r") + str(rng.randrange(npaths)))
+        scripts.append(ops)
+        reqs.append("vfsids\t" + ",".join(ops))
+    io, mo = common.run_both_chunked(reqs)
+    res.cov["evaluations"] += len(reqs)
+    n_dis = 0
+    for ops, rq, a, b in zip(scripts, reqs, io, mo):
+        if a != b:
+            n_dis += 1
+            if n_dis == 1:
+                res.add_broken("correspondence model-vs-implementation (M-vfs-ids vs Vfs::set_path_content / remove_uri)", f"first: {rq} impl={a!r} model={b!r}")
+        if a.startswith("PANIC") or " # " not in a:
+            continue
+        want = {}
+        for k, op in enumerate(ops):
+            if op[0] == "s":
+                want[int(op[1:])] = f"c{k}"
+            else:
+                want.pop(int(op[1:]), None)
+        table = [e.split(":") for e in a.split(" # ")[1].split(",") if e]
+        got = {int(p): c for p, i, c in table}
+        ids = [i for p, i, c in table]
+        if got != want or len(set(ids)) != len(ids):
+            res.add_violation("C15/document-store-is-not-a-map", f"after the history {','.join(ops)} the store holds {a.split(' # ')[1]!r}; a map path -> content holds {sorted(want.items())}"
+                              + (" (two loaded paths share an id)" if len(set(ids)) != len(ids) else ""), {"request": rq, "impl": a, "model": b})
+            break
+
+
+PROOF_MODULES = {"C15": ["Glas.Props.C15", "Glas.Props.C15Ids"]}
 
 
 def run(prop, res, tier, seed):
@@ -786,6 +824,7 @@ def run(prop, res, tier, seed):
     run_c15(res, tier, seed)
     run_request_burst(res, tier, seed)
     run_vanish_sessions(res, tier, seed)
+    run_vfs_ids(res, tier, seed)
     if res.disagreements:
         rq, a, b = res.disagreements[0]
         res.add_broken("correspondence model-vs-implementation (M-server vs the real binary)",
